@@ -681,8 +681,13 @@ fn trace_obs(st: &mut St, obs: &mut Vec<Value>) {
                 level,
                 hook,
             } => {
-                st.canon.on_new(&pid, &tid, &nid);
-                obs.push(json!({"k":"new","pid":pid,"tid":tid,"nid":nid,"kind":kind,"prev":prev,"level":level,"hook":hook}));
+                if hook {
+                    // second record of a task that has just been created: it is the act of a lifecycle hook
+                    obs.push(json!({"k":"hookact","pid":pid,"tid":tid,"nid":nid}));
+                } else {
+                    st.canon.on_new(&pid, &tid, &nid);
+                    obs.push(json!({"k":"new","pid":pid,"tid":tid,"nid":nid,"kind":kind,"prev":prev,"level":level,"hook":hook}));
+                }
             }
             verif::Obs::Tr {
                 pid,
